@@ -148,3 +148,32 @@ def var_graph_events(rng, n=40):
         evs.append({"ev": "var_graph", "inp": [p["inp"] for p in plan], "own": own, "input_vars": iv, "output_vars": ov,
                     "edges": edges, "node_edges": nedges})
     return evs
+
+
+def wiring_events():
+    import tensorflow_probability.substrates.jax.bijectors as tfb
+    import tensorflow_probability.substrates.jax.distributions as tfd
+
+    from .gibbs_driver import YD, penalty
+
+    evs = []
+    for spec in ([("np", "loc")], [("p", "loc"), ("np", "loc"), ("p", "scale")],
+                 [("np", "loc"), ("np", "scale"), ("p", "scale"), ("np", "loc")]):
+        b = lsl.DistRegBuilder()
+        b.add_response(YD, tfd.Normal)
+        b.add_predictor("loc", tfb.Identity)
+        b.add_predictor("scale", tfb.Exp)
+        Bm = jnp.asarray(np.vander(np.linspace(-1, 1, 7), 4), jnp.float32)
+        for kind, pred in spec:
+            if kind == "np":
+                b.add_np_smooth(Bm, jnp.asarray(penalty(4, 2)), a=1.0, b=0.5, predictor=pred)
+            else:
+                b.add_p_smooth(jnp.ones((7, 1), jnp.float32), m=0.0, s=5.0, predictor=pred)
+        model = b.build_model()
+        eb = lsl.dist_reg_mcmc(model, seed=1, num_chains=2)
+        groups = [{"name": g.name, "has_tau2": "tau2" in g, "has_beta": "beta" in g} for g in model.groups().values()]
+        evs.append({"ev": "distreg_wiring", "groups": groups,
+                    "kernels": [{"type": type(k).__name__, "keys": list(k.position_keys)} for k in eb.kernels],
+                    "jitter_keys": sorted(eb.jitter_fns.unwrap().keys()),
+                    "param_vars": sorted(v.name for v in model.vars.values() if v.parameter)})
+    return evs
